@@ -649,6 +649,23 @@ func init() {
 				}
 			}
 		}
+		// exact ties between adjacent subnormals and at the subnormal/zero boundary: (2k+1) * 2^-1075
+		// written out in full (5^1075 has 752 digits), in both notations, and their neighbours
+		p5 := new(big.Int).Exp(big.NewInt(5), big.NewInt(1075), nil)
+		for _, k := range []int64{0, 1, 2, 3, 7, 1 << 20, (1 << 52) - 1, 1 << 52} {
+			m := new(big.Int).Mul(p5, big.NewInt(2*k+1))
+			for _, d := range []int64{0, -1, 1} {
+				v := new(big.Int).Add(m, big.NewInt(d))
+				digs := v.String()
+				for _, sg := range []string{"", "-"} {
+					for _, lit := range []string{sg + digs + "e-1075", sg + digs + "E-1075", sg + "0." + strings.Repeat("0", 1075-len(digs)) + digs, sg + digs[:1] + "." + digs[1:] + "e-" + fmt.Sprint(1075-len(digs)+1)} {
+						e.emit("f64 %s", hs([]byte(lit)))
+						e.emit("fp_parse %s", hs([]byte(lit)))
+						e.emit("fp_dec %s", hs([]byte(lit)))
+					}
+				}
+			}
+		}
 		// the same ties scaled by large powers of two written out in full are in the "half" family of "fp"
 	}
 }
